@@ -5,6 +5,13 @@ V = "/verif"
 props = [json.loads(l) for l in open(V + "/properties.jsonl")]
 
 CLAIMED = {
+ "C10": dict(
+    text="Typestate/ORDER/PAIRING rules over lib/ext2fs/{link,unlink,mkdir}.c, debugfs/debugfs.c, misc/create_inode.c and every directory-iterator callback of the tree: a callback that changed an entry reports DIRENT_CHANGED on every non-error return; "
+         "a callback that merges an entry into the predecessor it remembers is run with DIRENT_FLAG_INCLUDE_EMPTY; every increment of a link count is dominated by a test against EXT2_LINK_MAX (dir_nlink rule for directories, refusal for files); "
+         "ext2fs_mkdir writes inode and directory content before linking the name, updates the parent only after the link succeeded, refuses an over-full parent before any accounting and rolls the accounting back on every later failure; "
+         "debugfs removal sets dtime, releases data blocks (whenever the inode has any), the extended-attribute block and the inode on every path, rmdir tests emptiness before touching anything and lowers the parent's count; link/unlink return iteration errors and report 'nothing done'. "
+         "Decides the bookkeeping for every operation history and directory size; does NOT decide hash order, leaf/index splitting or rec_len arithmetic, nor that listing equals a model.",
+    ref="§8.6 C10", technique="static analysis: path-sensitive typestate over iterator callbacks, flag-argument rule derived from callback behaviour, dominance, edge-gated must-pass, roll-back pairing"),
  "C15": dict(
     text="SIBLING/ORDER/ERRFLOW rules over lib/ext2fs/ext_attr.c: the space accounting of ext2fs_xattr_set and the layout of ext2fs_xattrs_write derive the in-inode capacity from the same chain (i_extra_isize, else s_want_extra_isize, else the same constant), the chosen value is stored, the accounting reserves magic word + null entry; "
          "accounting (space_used, xattr_array_update) and writer (write_xattrs_to_buffer) agree that an entry with a value inode takes no value space and use the same entry/value size macros; block entries are placed by the sorted-position search over exactly the block part; "
@@ -130,7 +137,6 @@ CLAIMED = {
 
 NA_REASON = {
  "C07": "geometry arithmetic and option-compatibility logic over a combinatorial configuration space: numerical, no clause visible in the shape of the code; mke2fs -n is decided under C13, backup writing under C20",
- "C10": "history-dependent data-structure behaviour (leaf split, rec_len coalescing, hash order, hash values): runtime quantities; dir-block checksum wiring is decided under C14",
 }
 
 checks = []
